@@ -283,6 +283,8 @@ func (session *ServerCommandSession) handleAnnounce(requestCtx nazahttp.HttpReqM
 	session.pubSession.InitWithSdp(sdpCtx)
 
 	if err = session.observer.OnNewRtspPubSession(session.pubSession); err != nil {
+		// 上层没有接受这个session，连接关闭时不需要再通知上层它的结束
+		session.pubSession = nil
 		return err
 	}
 
@@ -324,6 +326,8 @@ func (session *ServerCommandSession) handleDescribe(requestCtx nazahttp.HttpReqM
 	ok, rawSdp := session.observer.OnNewRtspSubSessionDescribe(session.subSession)
 	if !ok {
 		Log.Warnf("[%s] force close subSession.", session.uniqueKey)
+		// 上层没有接受这个session，连接关闭时不需要再通知上层它的结束
+		session.subSession = nil
 		return base.ErrRtspClosedByObserver
 	}
 
